@@ -1,6 +1,7 @@
 use std::{
     path::{Path, PathBuf},
     env::current_dir, sync::OnceLock, fs::ReadDir,
+    ffi::{OsStr, OsString}, os::unix::ffi::OsStrExt,
 };
 
 use regex::Regex;
@@ -50,11 +51,10 @@ fn ls_file_dir(file: &Path) -> Result<ReadDir> {
     Ok(ls_dir)
 }
 
-fn filename(path: &Path) -> Result<String> {
+fn filename(path: &Path) -> Result<OsString> {
     let fname = path.file_name()
-        .ok_or(XcpError::InvalidArguments(format!("Invalid path found: {:?}", path)))?
-        .to_string_lossy();
-    Ok(fname.to_string())
+        .ok_or(XcpError::InvalidArguments(format!("Invalid path found: {:?}", path)))?;
+    Ok(fname.to_os_string())
 }
 
 fn has_backup(file: &Path) -> Result<bool> {
@@ -77,18 +77,22 @@ fn next_backup_num(file: &Path) -> Result<u64> {
     Ok(current + 1)
 }
 
-fn is_num_backup(base_file: &str, candidate: &Path) -> Option<u64> {
+fn is_num_backup<S: AsRef<OsStr> + ?Sized>(base_file: &S, candidate: &Path) -> Option<u64> {
+    // A backup of `name` is exactly `name.~N~`; compare bytewise so
+    // that non-UTF-8 names work and `name.bak.~N~` is not mistaken
+    // for a backup of `name`.
     let cname = candidate
         .file_name()?
-        .to_str()?;
-    if !cname.starts_with(base_file) {
-        return None
-    }
+        .as_bytes();
     let ext = candidate
         .extension()?
-        .to_string_lossy();
+        .to_str()?;
+    let base = base_file.as_ref().as_bytes();
+    if cname.len() != base.len() + 1 + ext.len() || !cname.starts_with(base) {
+        return None
+    }
     let num = get_regex()
-        .captures(&ext)?
+        .captures(ext)?
         .get(1)?
         .as_str()
         .parse::<u64>()
